@@ -710,6 +710,10 @@ enum Call {
     /// writes that fail part-way (sink error, unserialisable header) - always "returns" the empty
     /// result; what matters is that the calls after it are unaffected
     FailedWrites(u64),
+    /// frame-level encode of block 0 of the SECOND case from a frame buffer that was filled with
+    /// (and encoded from) block 0 of the FIRST case just before: a caller-reused `FrameBuf`.
+    /// Must equal the frame-level encode of the second case from a fresh buffer.
+    FrameReused(Case, Case),
 }
 
 impl Call {
@@ -720,6 +724,8 @@ impl Call {
             Call::Frame(c, k) => c.key() ^ 0x33 ^ ((*k as u64) << 20),
             Call::Parse(c) => c.key() ^ 0x44,
             Call::FailedWrites(k) => crate::prng::mix(*k) ^ 0x55,
+            // the reference of a reused-buffer call is the plain frame-level call of the second case
+            Call::FrameReused(_, b) => b.key() ^ 0x33,
         }
     }
     fn describe(&self) -> serde_json::Value {
@@ -729,6 +735,7 @@ impl Call {
             Call::Frame(c, k) => json!({"call": "frame", "block_index": k, "case": c.describe()}),
             Call::Parse(c) => json!({"call": "stream->bytes->parser->bytes", "case": c.describe()}),
             Call::FailedWrites(k) => json!({"call": "1-4 writes that fail part-way (failing sink at a random operation / header with start sample >= 2^36)", "seed": k}),
+            Call::FrameReused(a, b) => json!({"call": "frame-level encode from a FrameBuf reused after another block", "first": a.describe(), "case": b.describe()}),
         }
     }
     /// Executes the call on the current thread; result = bytes or an error string.
@@ -759,6 +766,30 @@ impl Call {
                             enc::to_bytes(&s2).map_err(|e| format!("{e:?}"))
                         }
                     }
+                }
+                Call::FrameReused(a0, c) => {
+                    let v = enc::verified(&c.cfg)?;
+                    let a = &c.audio;
+                    let cap = a0.block.max(c.block);
+                    let mut fb = flacenc::source::FrameBuf::with_size(a.channels, cap).map_err(|e| format!("{e}"))?;
+                    // first use of the buffer: block 0 of the other case (same channel count)
+                    if a0.audio.channels == a.channels {
+                        let e0 = a0.block.min(a0.audio.frames());
+                        if e0 > 0 {
+                            fb.fill_interleaved(&a0.audio.samples[..e0 * a.channels]).map_err(|e| format!("{e}"))?;
+                            if let (Ok(v0), Ok(si0)) = (enc::verified(&a0.cfg), flacenc::component::StreamInfo::new(a0.audio.rate, a.channels, a0.audio.bps)) {
+                                let _ = flacenc::encode_fixed_size_frame(&v0, &fb, 0, &si0);
+                            }
+                        }
+                    }
+                    let end = c.block.min(a.frames());
+                    if end == 0 {
+                        return Ok(vec![]);
+                    }
+                    fb.fill_interleaved(&a.samples[..end * a.channels]).map_err(|e| format!("{e}"))?;
+                    let si = flacenc::component::StreamInfo::new(a.rate, a.channels, a.bps).map_err(|e| format!("{e}"))?;
+                    let f = flacenc::encode_fixed_size_frame(&v, &fb, 0, &si).map_err(|e| format!("{e}"))?;
+                    enc::to_bytes(&f).map_err(|e| format!("{e:?}"))
                 }
                 Call::Frame(c, k) => {
                     let v = enc::verified(&c.cfg)?;
@@ -835,7 +866,10 @@ fn fresh_result(cache: &FreshCache, call: &Call) -> Arc<Result<Vec<u8>, String>>
     if let Some(r) = cache.lock().unwrap().get(&k) {
         return Arc::clone(r);
     }
-    let c2 = call.clone();
+    let c2 = match call {
+        Call::FrameReused(_, b) => Call::Frame(b.clone(), 0),
+        other => other.clone(),
+    };
     // a freshly spawned thread has fresh thread-locals
     let r = std::thread::Builder::new()
         .stack_size(16 << 20)
@@ -866,7 +900,8 @@ pub fn run_c10(ctx: &Ctx) -> i32 {
         let mut calls = vec![];
         for _ in 0..len {
             let c = rng.pick(&pool).clone();
-            calls.push(match rng.usize_below(9) {
+            calls.push(match rng.usize_below(10) {
+                9 => Call::FrameReused(rng.pick(&pool).clone(), c),
                 8 => Call::FailedWrites(rng.next_u64()),
                 0 => Call::StreamU64(c),
                 1 | 2 => {
@@ -889,6 +924,7 @@ pub fn run_c10(ctx: &Ctx) -> i32 {
                 Call::Frame(..) => "calls_frame",
                 Call::Parse(_) => "calls_parse",
                 Call::FailedWrites(_) => "calls_failed_writes",
+                Call::FrameReused(..) => "calls_frame_from_reused_buffer",
             });
             if got != *want {
                 let what = match (&got, &*want) {
@@ -900,6 +936,7 @@ pub fn run_c10(ctx: &Ctx) -> i32 {
                     Call::Frame(..) => "frame",
                     Call::Parse(_) => "parse",
                     Call::FailedWrites(_) => "failed-writes",
+                    Call::FrameReused(..) => "frame-reused-buffer",
                 };
                 out.violation(
                     format!("C10|history-dependent|{kind}"),
